@@ -3,7 +3,7 @@
 Decided clauses (see META['outside'] for what is not): (1) no internal assertion / TypeError on admissible
 input: bounded real sweeps (E1 for the Python, E2 for the Cython implementation), the final normalisation +
 assertions of the CURRENT source in two float models (RelErr: cannot fire; FP bit-precise: can the exact
-comparison fire?), `assert c <= 0` from any invariant state; (2) Prinz self-consistency: the diagonal and
+comparison fire?), `assert c <= 0` from any exact invariant state AND from any state whose row sums have drifted by rounding; (2) Prinz self-consistency: the diagonal and
 pair update blocks of the current source, run from an arbitrary invariant state, establish their stationarity
 equation and preserve the invariant; (3) compiled = pure Python on the update blocks and on one full sweep."""
 import ast
@@ -40,7 +40,8 @@ META = {
     'outside': ['convergence of the iteration and hence "log-likelihood at least that of any other reversible matrix" at the limit: an '
                 'unbounded floating-point loop with a transcendental objective cannot be encoded; what is decided instead is stationarity '
                 'at every fixed point (first-order condition)', 'the different stopping metric of the two implementations (log vs log10)',
-                'sparse inputs', 'rounding inside the sweep (reals), except for the two assertion questions'],
+                'sparse inputs', 'rounding inside the sweep (reals), except for the assertion questions: final assertions (RelErr), and '
+                '`assert c <= 0` with row sums that are only within a relative 2^-30 of the true row sums (X entries >= 0, zeros allowed)'],
 }
 
 
@@ -225,6 +226,98 @@ def tail_relerr_job(n):
         return PathOut([('final-assertions-cannot-fire-under-rounding(RelErr model)', True)], {}, None,
                        desc='tail n=%d, RelErr: %s' % (n, B['tail_src'].splitlines()[-2:]))
     return path
+
+
+def pair_relerr_job(n, i=0, j=1):
+    """`assert c <= 0` of the pair update under rounding.  The state is the FLOATING-POINT invariant, not the exact
+    one: X symmetric with entries >= 0 (zero entries stay zero), X_rs[i] equal to the row sum only up to a relative drift of
+    2^-30 (the row sums are maintained incrementally: X_rs[i] + (v - X[i, j]) is rounded twice per visit).  For a state whose
+    row holds a single non-zero entry the exact remainder X_rs[i] - X[i, j] is 0 and the computed one may come out negative."""
+    def path(ctx):
+        # (the operations of the block itself are exact here: every factor of c is rounded with a relative error < 1, which keeps
+        # its sign - the rounding that matters for this assertion is the drift of the incrementally maintained row sums)
+        ctx.resolve_masks = True
+        ctx.abstract_log = True
+        B = blocks()
+        C = [[core.fresh_real('c') for _ in range(n)] for _ in range(n)]
+        for row in C:
+            for x in row:
+                ctx.add(core.to_z3_real(x) >= 0)
+            ctx.add(core.to_z3_bool(sum(row[1:], row[0]) > 0))
+        X = [[None] * n for _ in range(n)]
+        for a in range(n):
+            for b_ in range(a, n):
+                x = core.fresh_real('x')
+                ctx.add(core.to_z3_real(x) >= 0)
+                X[a][b_] = X[b_][a] = x
+        drift = Fraction(1, 2 ** 30)
+        Xrs = []
+        for a in range(n):
+            r = core.fresh_real('xrs')
+            tot = z3.Sum(*[core.to_z3_real(x) for x in X[a]])
+            ctx.add(tot > 0)
+            ctx.add(z3.And(core.to_z3_real(r) >= tot * (1 - z3.RealVal(str(drift))), core.to_z3_real(r) <= tot * (1 + z3.RealVal(str(drift)))))
+            Xrs.append(r)
+        # C_rs is computed once by a pairwise sum: exact up to rounding, never below any of its terms
+        Crs = [sum(C[a][1:], C[a][0]) for a in range(n)]
+        exc = None
+        try:
+            Xo, Xro = B['pair'](i, j, funcs.np_array(C, dtype=float), funcs.np_array(X, dtype=float),
+                                funcs.np_array(Xrs, dtype=float), funcs.np_array(Crs, dtype=float), 0.0)
+        except AssertionError as e:
+            exc = e
+
+        def witness(model):
+            # the RelErr counterexample fixes rounding errors, not inputs: look for concrete counts through the public builder
+            r = concrete_pair_reproduction()
+            return r if r is not None else {'inputs': None, 'out': None, 'violated': [], 'skip_compare': True}
+        lab = 'pair-update-assertion-cannot-fire-with-rounded-row-sums(relative drift 2^-30)'
+        if exc is not None:
+            return PathOut([(lab, False)], {}, witness, exc='AssertionError', desc='assert in the pair block fires under rounding')
+        return PathOut([(lab, True), ('updated-entry-non-negative-under-rounding', _raw(Xo)[i, j] >= 0)], {}, witness,
+                       desc='pair block n=%d under rounding' % n)
+    return path
+
+
+class _null:
+    def __enter__(self): return self
+    def __exit__(self, *a): return False
+
+
+def concrete_pair_reproduction():
+    """replay stage only: the solver has shown the pair-update assertion reachable under rounding; find integer counts with a
+    strongly connected graph on which the PUBLIC builder dies.  Chains 0 <-> 1 <-> 2 (end states have a single neighbour)."""
+    import itertools
+    import warnings
+    b = loader.load('enspara.msm.builders')
+    tried = 0
+    with core.concrete_mode(), warnings.catch_warnings():
+        warnings.simplefilter('ignore')
+        for s_ in range(4, 200):
+            for vals in itertools.product(range(1, 31), repeat=4):
+                if sum(vals) != s_:
+                    continue
+                tried += 1
+                if tried > 1500:
+                    return None
+                a_, b_, c_, d_ = vals
+                C = np.array([[0, a_, 0], [b_, 0, c_], [0, d_, 0]], dtype=float)
+                try:
+                    b._prinz_mle_py(C.copy(), max_iter=60)
+                    continue
+                except AssertionError:
+                    pass
+                except Exception:
+                    continue
+                try:
+                    b.mle(C.copy())
+                except AssertionError as e:
+                    return {'inputs': {'counts': C.tolist(), 'call': 'builders.mle(counts)'}, 'out': None, 'exception': repr(e),
+                            'violated': ['pair-update-assertion-fails-in-floating-point'], 'skip_compare': True,
+                            'signature': 'pair-update-assertion-fails-in-floating-point'}
+                except Exception:
+                    continue
+    return None
 
 
 def concrete_reproduction(n, B):
@@ -620,6 +713,8 @@ def jobs(tier):
                 add('block_job', 'pair-block[n=%d,%d,%d]' % (n, i, j), which='pair', n=n, i=i, j=j)
     for n in ((2, 3) if q else (2, 3, 4)):
         add('tail_relerr_job', 'final-block-RelErr[n=%d]' % n, n=n)
+    for n in ((2, 3) if q else (2, 3, 4)):
+        add('pair_relerr_job', 'pair-block-rounded-row-sums[n=%d]' % n, n=n, i=0, j=n - 1)
     for n in ((2,) if q else (2, 3)):
         add('block_equiv_job', 'compiled-vs-python-diag[n=%d]' % n, which='diag', n=n, i=n - 1)
         add('block_equiv_job', 'compiled-vs-python-pair[n=%d]' % n, which='pair', n=n, i=0, j=n - 1)
